@@ -5,7 +5,7 @@ CONSTANTS
   RspTos = {0}
   Classes = {"x"}
   Sizes = {0, 64}
-  MaxSends = 4
+  MaxSends = 3
   Faults = {}
 INVARIANT TypeOK
 INVARIANT Conservation
